@@ -362,6 +362,7 @@ fn run_harness(h: &str, preset: &str, seed: u64) -> Result<Fields, String> {
             let nodes = cfg.node_count;
             let max_time = cfg.max_time_ms;
             let mut sim = DSTSimulation::with_config(cfg);
+            after_construct();
             let mut trace = Vec::new();
             // body of DSTSimulation::run_operations(2000), observing after every step
             for _ in 0..2000 {
@@ -399,6 +400,7 @@ fn run_harness(h: &str, preset: &str, seed: u64) -> Result<Fields, String> {
                 "zipfian_chaos" => S::new(seed, 5).with_faults(FaultConfig::chaos()),
                 _ => return bad(),
             };
+            after_construct();
             let r = sim.run(400).clone();
             put(&mut o, "trace", lines(&r.operation_history));
             put(&mut o, "state", format!("{:?} convergence={}", sim.stats(), sim.check_convergence()));
@@ -729,6 +731,34 @@ fn wire_unesc(s: &str) -> String {
     out
 }
 
+thread_local! {
+    /// an older, still living simulation object; dropped by `after_construct` as soon as the run under observation has
+    /// built its own
+    static BYSTANDER: std::cell::RefCell<Option<Box<dyn std::any::Any>>> = std::cell::RefCell::new(None);
+}
+
+fn after_construct() {
+    BYSTANDER.with(|b| drop(b.borrow_mut().take()));
+}
+
+/// An instance of the same simulation family with ANOTHER preset and seed, built but not run.
+fn make_bystander(h: &str, preset: &str, seed: u64) -> Option<Box<dyn std::any::Any>> {
+    match h {
+        "dst_simulation" => {
+            use redis_sim::simulator::{DSTConfig, DSTSimulation};
+            let cfg = if preset == "chaos" { DSTConfig::calm(seed + 1000) } else { DSTConfig::chaos(seed + 1000) };
+            Some(Box::new(DSTSimulation::with_config(cfg)))
+        }
+        "redis_dst" => {
+            use redis_sim::buggify::FaultConfig;
+            use redis_sim::simulator::dst_integration::RedisDSTSimulation as S;
+            let f = if preset == "zipfian_chaos" { FaultConfig::calm() } else { FaultConfig::chaos() };
+            Some(Box::new(S::new(seed + 1000, 5).with_faults(f)))
+        }
+        _ => None,
+    }
+}
+
 fn run_caught(h: &str, p: &str, seed: u64) -> Fields {
     match std::panic::catch_unwind(|| run_harness(h, p, seed)) {
         Ok(Ok(f)) => f,
@@ -775,6 +805,12 @@ fn child_main(a: &[String]) -> ! {
     emit("R1", &r1);
     let r2 = run_caught(h, p, seed);
     emit("R2", &r2);
+    if let Some(older) = make_bystander(h, p, seed) {
+        BYSTANDER.with(|b| *b.borrow_mut() = Some(older));
+        let r3 = run_caught(h, p, seed);
+        BYSTANDER.with(|b| b.borrow_mut().take());
+        emit("R3", &r3);
+    }
     meta_lines();
     println!("END");
     std::process::exit(0);
@@ -871,6 +907,9 @@ fn envs() -> Vec<Env> {
 struct ChildOut {
     r1: Fields,
     r2: Fields,
+    /// third run in the same process, started while an older instance of the same simulation family (another preset)
+    /// is still alive; the older one is dropped right after the new one was built (`sim = Sim::new(..)` over a live sim)
+    r3: Fields,
     meta: BTreeMap<String, String>,
 }
 
@@ -940,13 +979,14 @@ fn run_child(shim: &PathBuf, args: &[String], env: &Env) -> ChildOut {
             String::from_utf8_lossy(&out.stderr).chars().take(600).collect::<String>()
         ));
     }
-    let mut c = ChildOut { r1: Vec::new(), r2: Vec::new(), meta: BTreeMap::new() };
+    let mut c = ChildOut { r1: Vec::new(), r2: Vec::new(), r3: Vec::new(), meta: BTreeMap::new() };
     for l in text.lines() {
         let mut it = l.splitn(3, '\t');
         let (tag, k, v) = (it.next().unwrap_or(""), it.next().unwrap_or(""), it.next().unwrap_or(""));
         match tag {
             "R1" => c.r1.push((k.to_string(), wire_unesc(v))),
             "R2" => c.r2.push((k.to_string(), wire_unesc(v))),
+            "R3" => c.r3.push((k.to_string(), wire_unesc(v))),
             "M" => {
                 c.meta.insert(k.to_string(), v.to_string());
             }
@@ -1081,13 +1121,20 @@ fn compare(outs: &[(Env, ChildOut)]) -> Vec<Finding> {
                 break;
             }
         }
+        // overlapping lifetimes: third run, started next to a living older instance of another preset
+        for (e, c) in outs {
+            if !c.r3.is_empty() && get(&c.r1, f) != get(&c.r3, f) {
+                per_dim.entry("overlapping-lifetimes").or_default().push((f.clone(), e.clone(), e.clone(), 3));
+                break;
+            }
+        }
     }
     let mut out = Vec::new();
     for (dim, v) in per_dim {
         let (field, a, b, run_b) = v[0].clone();
         let ca = &outs.iter().find(|(e, _)| *e == a).unwrap().1;
         let cb = &outs.iter().find(|(e, _)| *e == b).unwrap().1;
-        let vb = if run_b == 2 { get(&cb.r2, &field) } else { get(&cb.r1, &field) };
+        let vb = if run_b == 3 { get(&cb.r3, &field) } else if run_b == 2 { get(&cb.r2, &field) } else { get(&cb.r1, &field) };
         out.push(Finding {
             dim,
             diff: first_diff(get(&ca.r1, &field), vb),
@@ -1220,7 +1267,7 @@ fn main() {
         let ca = run_child(&shim, &cargs, &ea);
         let cb = run_child(&shim, &cargs, &eb);
         let va = get(&ca.r1, &field);
-        let vb = if run_b == 2 { get(&cb.r2, &field) } else { get(&cb.r1, &field) };
+        let vb = if run_b == 3 { get(&cb.r3, &field) } else if run_b == 2 { get(&cb.r2, &field) } else { get(&cb.r1, &field) };
         println!("{h}/{p} seed {seed}: field `{field}` of run 1 under [{}] vs run {run_b} under [{}]", ea.label(), eb.label());
         if va != vb {
             println!("{}", first_diff(va, vb));
